@@ -314,7 +314,12 @@ def r_twin(ctx):
     if not pairs:
         return no_anchor("R-TWIN", "sync/async sibling functions")
     local = set(ctx.facts.fns)
+    fac_impl = set(f["path"] for f in ctx._factory_impls()[0])
     for s, a in pairs:
+        if s["path"] in fac_impl and a["path"] in fac_impl:
+            # codec factories differ by construction (sync vs async codec types); what must agree is decided by R-FACTORY arm by arm
+            obs.append(Ob("R-TWIN", s["path"], "%s ↔ %s" % (s["path"].rpartition("::")[2], a["path"].rpartition("::")[2]), True, "codec factories: compared by R-FACTORY", rel(a["loc"])))
+            continue
         ns, na = norm(s["body"], local), norm(a["body"], local)
         d = first_diff(ns, na)
         tmpl = is_template_pair(s, a)
@@ -444,7 +449,19 @@ def r_factory(ctx):
         obs.append(Ob("R-FACTORY", "<crate>", "%s: every decoder factory agrees on multi-frame input" % arm, len(kinds) == 1 and None not in kinds,
                       "; ".join("%s: %s" % (k.rpartition("::")[2], v) for k, v in sorted(per.items()))))
     # who may construct codecs: only the factories
-    facn = set(f["path"] for f in facs)
+    facn = set(f["path"] for f in facs) | set(ctx._factory_impls()[1])
+    # private helpers that only the factories call (a decoder configured in a small function of its own) belong to them
+    cg = ctx.callgraph()
+    changed = True
+    while changed:
+        changed = False
+        for f in ctx.user_fns():
+            if f["path"] in facn or f["vis"] == "pub":
+                continue
+            callers = [c for c, cs in cg.items() if f["path"] in cs]
+            if callers and all(c in facn for c in callers):
+                facn.add(f["path"])
+                changed = True
     for f in ctx.user_fns():
         if f["path"] in facn:
             continue
